@@ -324,6 +324,38 @@ func (cf *chanFn) forwardIssues(made map[string]bool) []sideIssue {
 				return true
 			})
 			spawns := nodeHas(x.Body, func(m ast.Node) bool { _, ok := m.(*ast.GoStmt); return ok })
+			if spawns {
+				// a goroutine per received item may only drain that item (a channel) with its own receive loop; sending a
+				// value computed from the item from a fresh goroutine lets later items overtake earlier ones
+				ast.Inspect(x.Body, func(m ast.Node) bool {
+					g, isGo := m.(*ast.GoStmt)
+					if !isGo {
+						return true
+					}
+					lit, isLit := g.Call.Fun.(*ast.FuncLit)
+					if !isLit {
+						return true
+					}
+					ast.Inspect(lit.Body, func(k ast.Node) bool {
+						s, isSend := k.(*ast.SendStmt)
+						if !isSend {
+							return true
+						}
+						inRecvLoop := false
+						ast.Inspect(lit.Body, func(q ast.Node) bool {
+							if r2, isR := q.(*ast.RangeStmt); isR && isChanRange(cf, r2) && containsNode(r2.Body, s) {
+								inRecvLoop = true
+							}
+							return true
+						})
+						if !inRecvLoop {
+							out = append(out, cf.issue(s, "per-item-goroutine", "T4: every received item is sent from its own goroutine: the goroutines are not ordered, so items can overtake each other (the input order is not preserved)"))
+						}
+						return true
+					})
+					return false
+				})
+			}
 			if len(sends) == 0 && spawns {
 				return true
 			}
